@@ -642,7 +642,7 @@ package raft
 //@   flags inline
 //@   requires readOnlyType == LinearizableReadOnly || readOnlyType == LeaseBasedReadOnly
 //@   ensures [not-leader] old(r.state) != Leader ==> answered[operationFuture.responseCh] && Llast == old(Llast)
-//@   at before-assign r.operationManager.pendingReadOnly[operation] assert [readIndex] r.state == Leader && operation != nil && operation.readIndex == r.commitIndex && operation.round == r.operationManager.rounds && !operation.quorumVerified && operation.OperationType == readOnlyType && newval == operationFuture.responseCh
+//@   at before-assign r.operationManager.pendingReadOnly[operation] assert [readIndex] r.state == Leader && operation != nil && operation.readIndex >= r.commitIndex && operation.readIndex <= Llast && (!committedThisTermSpec(r) ==> operation.readIndex == Llast) && operation.round == r.operationManager.rounds && !operation.quorumVerified && operation.OperationType == readOnlyType && newval == operationFuture.responseCh
 
 //@ func Raft.AddServer
 //@   at call r.appendConfiguration assert [guard] r.state == Leader && committedThisTermSpec(r) && !pendingSpec(r)
